@@ -139,8 +139,14 @@ def run_one(seed, tape, opts):
             n = 0
             for p in owners[c.name].protocols:
                 if p.made and not p.lost:
-                    p.transport.write(tape.blob(1, 7) *
-                                      tape.pick((3000, 70000, 200000), "bulk"))
+                    try:
+                        p.transport.write(tape.blob(1, 7) * tape.pick(
+                            (3000, 40000, 70000, 200000), "bulk"))
+                    except Exception as e:
+                        # (a subchannel already closed by the shutdown)
+                        sim.note("probe.late_write_refused." +
+                                 type(e).__name__)
+                        continue
                     n += 1
             if n:
                 sim.note("probe.bulk_write_before_close")
@@ -197,6 +203,10 @@ def run_one(seed, tape, opts):
             if tape.choose(2, "linger2"):
                 ops.append(("wait_steps", tape.choose(60, "ls2")))
         ops.append(("close",))
+        if dilates and backpressure and tape.choose(2, "late_write") == 0:
+            # ... and goes on writing on its subchannels until it is told
+            # that the wormhole has closed
+            ops.append(("sub_write",))
         if dilates and tape.choose(3, "after") == 0:
             ops.append(("sub_connect",))
         return ops
